@@ -24,7 +24,10 @@ RULE = (
     "crash/restart windows from happysimulator.faults, a client submitting unique commands at generated instants to every "
     "/ one node that currently claims leadership (stale leaders included) or to an arbitrary node. duel: same, but two "
     "chosen nodes time out almost together and RequestVote / AppendEntries on chosen links are held for a generated time "
-    "(aims at votes racing heartbeats and at stale followers with longer logs). calm: loss-free network with all delays "
+    "(aims at votes racing heartbeats and at stale followers with longer logs). staleack / fig8: randomised scripted "
+    "adversaries (roles permuted over 5 nodes, every instant jittered and scaled, free seeds) - old-term acknowledgements "
+    "held until their addressee leads again; an old-term entry reaching a majority only under a later leader while a third "
+    "node holds an unreplicated entry of a term in between. calm: loss-free network with all delays "
     "< 1/10 of the minimum election timeout and heartbeat <= 1/3 of it; once one leader is established (all nodes in its "
     "term and naming it, continuously for 2 max-delays) K commands are submitted to it; every node must have applied "
     "exactly those K commands in submission order and every future must be resolved within (K+3)*(heartbeat + 2*max delay) "
